@@ -93,7 +93,7 @@ theorem xLoop_eq (n : Nat) : ∀ (k : Nat) (r r1 x : α) (s : St) (y : List α),
     ring
 
 /-- on the centre of the cell of a valid digit list `ds` the loop recovers `ds` -/
-theorem invDigits_ptOf {n : Nat} (hn : 2 ≤ n ∧ n ≤ 5) : ∀ (ds : List Nat) (r : α) (s : St),
+theorem invDigits_ptOf {n : Nat} (hn : Ev.DimOK n) : ∀ (ds : List Nat) (r : α) (s : St),
     0 < r → Inv.Valid n s → validDigits n ds →
     invDigits n ds.length r s (ptOf n (signs n s ds) r) = ds
   | [], _, _, _, _, _ => rfl
@@ -114,15 +114,15 @@ theorem invDigits_ptOf {n : Nat} (hn : 2 ≤ n ∧ n ≤ 5) : ∀ (ds : List Nat
     rw [invDigits_ptOf hn ds (r / 2) _ (by positivity) hs' hd.2]
 
 /-- (2) at the level of `inverseCube` -/
-theorem inverseCube_centre {n : Nat} (hn : 2 ≤ n ∧ n ≤ 5) (ds : List Nat)
+theorem inverseCube_centre {n : Nat} (hn : Ev.DimOK n) (ds : List Nat)
     (hd : validDigits n ds) :
     inverseCube n ds.length ((cubeY n ds).map fun (Y : Int) => (Y : α) / 2^(ds.length + 1)) =
       (indexOf n ds : α) / (2^n)^ds.length := by
   have h1 : (n == 1) = false := by
-    rw [beq_eq_false_iff_ne]; omega
+    rw [beq_eq_false_iff_ne]; exact hn.ne_one
   rw [cubeY_map_eq_ptOf hn ds hd]
   simp only [inverseCube, h1, Bool.false_eq_true, if_false]
-  rw [xLoop_eq, half_eq, invDigits_ptOf hn ds _ _ (by positivity) (Inv.valid_init n (by omega)) hd]
+  rw [xLoop_eq, half_eq, invDigits_ptOf hn ds _ _ (by positivity) (Inv.valid_init n hn.pos) hd]
   simp [frac]
 
 end Ev.Num
